@@ -5,6 +5,7 @@ Mutation events
                               a Wait whose duration comes from the session's DurationRegistry)
   ('sub', rep, body)          build a block from the body and add it
   ('rel', rt, i)              add Rx90(2) with relation rt to entry i of the current circuit
+  ('grow', i)                 add Reset(0) into the block that is entry i (through the block's own add)
   ('apply',) ('flatten',)     c = c.apply_modifiers() / c = c.flatten()
   ('nest',)                   new circuit; add the current one into it
   ('setreg', v)               DurationRegistry.set_registry_at(key, v)
@@ -46,6 +47,9 @@ class Session:
             self.ent.append(c.add(sb.circ))
         elif k == 'rel':
             self.ent.append(c.add(co.Rx90(2, relation=RelationLink(self.ent[ev[2]], RT[ev[1]]))))
+        elif k == 'grow':
+            # add an operation into an already nested block through the block's own public add
+            self.ent[ev[1]].add(make_op('R', 0, None, c))
         elif k == 'apply':
             self.c = c.apply_modifiers()
         elif k == 'flatten':
